@@ -84,6 +84,7 @@ COVERED = {
     # /verif's own instrumentation (commit 43e6710, compiled only with -DAITOOLBOX_VERIF): the process-wide observer
     # callbacks of the C03 hook.  Written only by the harness, never by the library; unset (empty) they change nothing.
     "src/POMDP/Algorithms/GapMin.cpp::bool": ("verif-hook", "C03 observer hook (AITOOLBOX_VERIF only): std::function<bool(const VerifSnapshot&)> observer, set by the C03 harness only"),
+    "src/POMDP/Algorithms/SARSOP.cpp::void": ("verif-hook", "C03 event hook (AITOOLBOX_VERIF only, commit 9062f5a): std::function<void(const VerifEvent&)> observer, set by the C03 harness only"),
     "src/POMDP/Algorithms/SARSOP.cpp::bool": ("verif-hook", "C03 observer hook (AITOOLBOX_VERIF only): std::function<bool(const VerifSnapshot&)> observer, set by the C03 harness only"),
 }
 _BG = "include/AIToolbox/POMDP/Algorithms/Utils/BeliefGenerator.hpp::"
